@@ -32,7 +32,8 @@ def main():
         import random
         random.Random(seed).shuffle(tasks)
     w = common.world()
-    results, used_f, used_m, errors, wall = runner.run_tasks(modname, tasks)
+    cap = int(os.environ.get('VERIF_DEADLINE_S', '1500' if tier == 'quick' else '5400'))
+    results, used_f, used_m, errors, wall = runner.run_tasks(modname, tasks, deadline=time.time() + cap)
     known = [k for k in common.known_findings() if k['property'] == pid and k.get('status', 'open') == 'open']
     os.makedirs(common.OUT, exist_ok=True)
     os.makedirs(common.EVIDENCE, exist_ok=True)
